@@ -3,6 +3,7 @@ import UtpVerif.Driver.Wire
 import UtpVerif.Driver.Mtu
 import UtpVerif.Driver.TxRing
 import UtpVerif.Driver.Rx
+import UtpVerif.Driver.Segments
 /-!
 Line-protocol driver: one op per input line (`<component> <op> args…`), one output line per op.
 The Rust harness (`/verif/harness`) executes the same lines on the real code; `tools/check.py`
@@ -15,6 +16,7 @@ structure St where
   mtu : SegSizes := SegSizes.new true 1500 3
   tx : TxRing := TxRing.new 16
   rx : RxSt := {}
+  segs : Segments := Segments.new 0
   txPos : Nat := 0   -- bytes accepted so far (position-coded payload generator)
 
 def step (st : St) (line : String) : St × String :=
@@ -31,6 +33,7 @@ def step (st : St) (line : String) : St × String :=
       | none => 0
     ({ st with tx := r, txPos := pos + acc }, o)
   | "rx" :: args => let (r, o) := stepRx st.rx args; ({ st with rx := r }, o)
+  | "seg" :: args => let (r, o) := stepSegs st.segs args; ({ st with segs := r }, o)
   | "rtte" :: args => let (r, o) := stepRtte st.rtte args; ({ st with rtte := r }, o)
   | _ => (st, "bad-op")
 
